@@ -15,6 +15,10 @@ import (
 type Outcome struct {
 	V          *sim.Violation
 	Infra      string // infrastructure trouble: exit 2, never a violation
+	// Skipped: this scenario could not be judged (the tree under test performs more
+	// operations on it than a child may); counted, and infrastructure trouble only when it
+	// is more than a rare exception
+	Skipped string
 	Key        uint64
 	Nontrivial int // number of distinct non-trivial evaluations in this case
 	Evals      int
@@ -253,7 +257,7 @@ func C20Case(r *Runner, base string, tape *sim.Tape) *Outcome {
 		return out
 	}
 	if ff.Res.Exit == -4 {
-		out.Infra = "the child's operation budget was exhausted (scenario too large for the chosen io buffer sizes): " + fmt.Sprint(c.Inv.Args())
+		out.Skipped = "the child's operation budget was exhausted (scenario too large for the chosen io buffer sizes): " + fmt.Sprint(c.Inv.Args())
 		return out
 	}
 	if ex.Unsure != "" || ex.Rejected {
@@ -269,6 +273,13 @@ func C20Case(r *Runner, base string, tape *sim.Tape) *Outcome {
 		if Mutating(ff.Trace[k-1].Kind) {
 			points = append(points, k)
 		}
+	}
+	if len(points) > 3000 {
+		// each crash point is a whole run of the command: a tree that turns one scenario into
+		// thousands of mutating operations (a large file streamed in tiny writes) cannot be
+		// enumerated within any budget; counted as not judged
+		out.Skipped = fmt.Sprintf("%d crash points in one scenario (%d operations): too many to enumerate: %v", len(points), K, c.Inv.Args())
+		return out
 	}
 	out.stat("scenarios", 1)
 	out.stat("fs_ops_fault_free", int64(K))
